@@ -932,7 +932,13 @@ class Filter:
         positional_args, keyword_args = self.evaluate_args(context)
         try:
             return func(left, *positional_args, **keyword_args)
-        except (TypeError, ValueError, ArithmeticError, LookupError) as err:
+        except (
+            TypeError,
+            ValueError,
+            ArithmeticError,
+            LookupError,
+            AttributeError,
+        ) as err:
             raise LiquidTypeError(str(err), token=self.token) from err
         except LiquidTypeError as err:
             err.token = self.token
@@ -944,7 +950,13 @@ class Filter:
 
         try:
             return func(left, *positional_args, **keyword_args)
-        except (TypeError, ValueError, ArithmeticError, LookupError) as err:
+        except (
+            TypeError,
+            ValueError,
+            ArithmeticError,
+            LookupError,
+            AttributeError,
+        ) as err:
             raise LiquidTypeError(f"{self.name}: {err}", token=self.token) from err
         except LiquidTypeError as err:
             err.token = self.token
